@@ -297,6 +297,12 @@ func mcCatalog() *Catalog {
 	cat.addBlob("b2", []int{1, 2})
 	cat.addBlob("b3", []int{1, 2, 1})
 	cat.addBlob("b4", []int{1, 2, 1, 2})
+	// 12 MiB: hashing it takes long enough for another call on the same session to arrive meanwhile
+	bigb := make([]int, 1536)
+	for i := range bigb {
+		bigb[i] = 400 + i%7
+	}
+	cat.addBlob("bigb", bigb)
 	cat.addImage("img", "b1", nil, "-", "-", "img", "", 0)
 	cat.addIndex("idx", [][2]string{{"img", "image"}}, "-", "-", "idx")
 	cat.addIndex("idy", [][2]string{{"img", "other"}}, "-", "-", "idy")
